@@ -211,4 +211,33 @@ theorem range_ok (db : Db) (hw : db.WF) (s e si : Nat) (hse : s ≤ e)
     rw [hsi] at this
     rw [← this, List.head?_take, if_neg (by omega), List.head?_drop, hget]
 
+/-! ### one step of the service loops: the output grows by at most one, checked, group -/
+
+theorem groupEach_out (db : Db) (si li : Nat) (st st1 : GState) (svc : Svc)
+    (he : groupEach db si li st svc = some st1) :
+    st1.index = st.index + svc.nAttrs ∧
+    (st1.out = st.out ∨ ∃ decl v, db.tbl[st.index]? = some decl ∧ si ≤ st.index ∧ st.index ≤ li ∧
+        decl.2.uuid = .u16 uuidPrimary ∧ decl.2.value = some v ∧
+        st1.out = st.out ++ [⟨decl.1, hbi db (st.index + svc.nAttrs - 1), v⟩]) := by
+  unfold groupEach at he
+  repeat' (first | split at he | (dsimp only at he; split at he))
+  all_goals (cases he)
+  all_goals first
+    | exact ⟨rfl, Or.inl rfl⟩
+    | (refine ⟨rfl, Or.inr ⟨_, _, ‹_›, ?_, ?_, ?_, ‹_›, rfl⟩⟩ <;> simp_all)
+
+theorem findEach_out (db : Db) (si : Nat) (ei : Option Nat) (val : List UInt8) (st st1 : FState) (svc : Svc)
+    (he : findEach db si ei val st svc = some st1) :
+    st1.index = st.index + svc.nAttrs ∧
+    (st1.out = st.out ∨ ∃ decl, db.tbl[st.index]? = some decl ∧ si ≤ st.index ∧
+        (∀ x, ei = some x → st.index ≤ x) ∧
+        decl.2.uuid = .u16 uuidPrimary ∧ decl.2.value = some val ∧
+        st1.out = st.out ++ [(decl.1, hbi db (st.index + svc.nAttrs - 1))]) := by
+  unfold findEach at he
+  simp only at he
+  repeat' (first | split at he | (dsimp only at he; split at he))
+  all_goals (cases he)
+  all_goals first
+    | exact ⟨rfl, Or.inl rfl⟩
+    | (refine ⟨rfl, Or.inr ⟨_, ‹_›, ?_, ?_, ?_, ?_, rfl⟩⟩ <;> simp_all)
 end BluetoeModel.AttDiscovery
